@@ -199,9 +199,17 @@ def apply(op, live):
     raise ValueError(op)
 
 
-def restore(snap, live):
-    shutil.rmtree(live, ignore_errors=True)
-    shutil.copytree(snap, live)
+_live_counter = [0]
+
+
+def restore(snap, live_root):
+    """Copy a snapshot to a directory that was never used before and return it. Reusing one path for different
+    states would go behind the library's back: a (legitimate) in-process cache keyed by path could still hold
+    the previous state, which no sequence of library operations can produce."""
+    _live_counter[0] += 1
+    new = os.path.join(live_root, f"s{_live_counter[0]}")
+    shutil.copytree(snap, new)
+    return new
 
 
 def run_case(case):
@@ -218,15 +226,26 @@ def run_case(case):
     viols = []
     counters = dict(states=0, transitions=0, measurements=0, nontrivial_measurements=0, executions=0)
 
+    work = os.path.join(root, "work")
+    os.makedirs(work)
+    current = [live]
+
     def fresh_result(op):
         key = tuple(op)
         if key not in fresh:
-            restore(os.path.join(snaps, init), live)
-            fresh[key] = apply(op, live)
+            d = restore(os.path.join(snaps, init), work)
+            fresh[key] = apply(op, d)
+            shutil.rmtree(d, ignore_errors=True)
         return fresh[key]
 
     def step(state, op, history):
-        restore(os.path.join(snaps, state), live)
+        if current[0] != live:
+            shutil.rmtree(current[0], ignore_errors=True)
+        live_ = restore(os.path.join(snaps, state), work)
+        current[0] = live_
+        return _step(live_, op, history)
+
+    def _step(live, op, history):
         before = cached_binnings(live)
         try:
             got = apply(op, live)
@@ -270,7 +289,7 @@ def run_case(case):
             if state is None:
                 break
             if not os.path.exists(os.path.join(snaps, state)):
-                shutil.copytree(live, os.path.join(snaps, state))
+                shutil.copytree(current[0], os.path.join(snaps, state))
             hist = hist + [op]
         res = dict(nontrivial=True, key=case, counters=counters)
         if viols:
@@ -284,7 +303,7 @@ def run_case(case):
     if s1 is not None:
         if s1 not in seen:
             seen.add(s1)
-            shutil.copytree(live, os.path.join(snaps, s1))
+            shutil.copytree(current[0], os.path.join(snaps, s1))
         frontier = [(s1, [first])]
     for depth in range(1, case["depth"]):
         nxt = []
@@ -295,7 +314,7 @@ def run_case(case):
                     continue
                 if new not in seen:
                     seen.add(new)
-                    shutil.copytree(live, os.path.join(snaps, new))
+                    shutil.copytree(current[0], os.path.join(snaps, new))
                     nxt.append((new, hist + [op]))
         frontier = nxt
         if not frontier:
